@@ -305,6 +305,10 @@ def compare(op, a, b):
         va = pyfloat(va)
     if isinstance(vb, float):
         vb = pyfloat(vb)
+    if isinstance(va, str) and is_z3(vb):
+        va = str_code(va)
+    if isinstance(vb, str) and is_z3(va):
+        vb = str_code(vb)
     if (va is None or vb is None or isinstance(va, str) or isinstance(vb, str)) \
             and not is_z3(va) and not is_z3(vb):
         if op == "==":
@@ -794,7 +798,19 @@ def in_image(mask_f, idx_f, n, x):
     return z3.Exists([b], B(body))
 
 
+_str_codes = {}
+
+
+def str_code(s):
+    """string-valued table cells are modelled as integer codes; each literal gets a distinct code"""
+    if s not in _str_codes:
+        _str_codes[s] = z3.IntVal(1000003 + len(_str_codes))
+    return _str_codes[s]
+
+
 def member(coll, x):
+    if isinstance(coll, (list, tuple, set, frozenset)):
+        return bor(*[compare("==", x, e) for e in coll])
     if getattr(coll, "member_fn", None) is not None:
         return coll.member_fn(x)      # membership predicate supplied by the producing contract
     if isinstance(coll, SetVal):
